@@ -117,6 +117,12 @@ pub struct Ref<'a> {
     flats: std::cell::RefCell<BTreeMap<String, std::rc::Rc<Flat>>>,
     /// when set, range errors of the encoder are collected here and encoding goes on with the masked value
     collect: std::cell::RefCell<Option<Vec<EncErr>>>,
+    /// input generation only: every element of an array that has an element-size field is followed by this many
+    /// zero octets and the element-size field grows by as much (an element shorter than its window)
+    pub es_pad: std::cell::Cell<usize>,
+    /// set by enc_array when es_pad was applied to at least one element
+    pub es_padded: std::cell::Cell<bool>,
+    es_ids: BTreeSet<String>,
 }
 
 fn mask(w: u32) -> u64 {
@@ -133,7 +139,19 @@ fn bad<T>(s: impl Into<String>) -> Result<T, EncErr> {
 
 impl<'a> Ref<'a> {
     pub fn new(d: &'a Desc) -> Ref<'a> {
-        Ref { d, flats: Default::default(), collect: Default::default() }
+        let mut es_ids = BTreeSet::new();
+        for decl in &d.decls {
+            let fields = match decl {
+                Decl::Record { fields, .. } | Decl::Group { fields, .. } => fields,
+                _ => continue,
+            };
+            for f in fields {
+                if let FieldDesc::ElemSize { target, .. } = &f.d {
+                    es_ids.insert(target.clone());
+                }
+            }
+        }
+        Ref { d, flats: Default::default(), collect: Default::default(), es_pad: Default::default(), es_padded: Default::default(), es_ids }
     }
 
     pub fn flat(&self, id: &str) -> std::rc::Rc<Flat> {
@@ -352,6 +370,10 @@ impl<'a> Ref<'a> {
         for it in items {
             let before = out.len();
             self.enc_elem(elem, it, id, base, &mut out, &mut lay, ev)?;
+            if self.es_pad.get() > 0 && self.es_ids.contains(id) {
+                out.extend(std::iter::repeat(0u8).take(self.es_pad.get()));
+                self.es_padded.set(true);
+            }
             sizes.push(out.len() - before);
         }
         Ok((out, lay, sizes))
